@@ -345,6 +345,7 @@ def run(ctx):
     # =============================================================== 4. tranche survival, all method enums
     rng = ctx.rng('tranche')
     n_cases = 70 if quick else 800
+    gauss_degenerate_cases = [0]
     methods = {
         'RECURSION': lambda k1, k2, n, q, R, b, s: GC.tranche_surv_prob_recursion(k1, k2, n, q, R, b, s),
         'ADJUSTED_BINOMIAL': lambda k1, k2, n, q, R, b, s: GC.tranche_surv_prob_adj_binomial(k1, k2, n, q, R, b, s),
@@ -385,6 +386,7 @@ def run(ctx):
             if bad:
                 ctx.violation(f'tranche survival ({name}) raised {bad}', cs, clause='callable')
                 continue
+            # nodes with sigma < 1e-6 and mu > k2 (the repaired branch of gauss_approx_tranche_loss): only a coverage tag now
             degen = gaussian_degenerate(np, Nf, norminvcdf, q1, q2, R, b, steps, ks) if name == 'GAUSSIAN' else False
             if is_gcd:
                 # the loss units come from portfolio_gcd -> pair_gcd, which is not a gcd: only the partition clause is
@@ -397,7 +399,9 @@ def run(ctx):
                                   dict(cs, partition_sum=tot, portfolio_EL=pel), finding='C17/gcd-not-a-gcd',
                                   clause='partition-adds-up')
                 continue
-            fid = 'C17/gaussian-degenerate-sigma-sign' if degen else None
+            fid = None        # C17/gaussian-degenerate-sigma-sign is fixed (13a1996): a recurrence is a VIOLATION
+            if degen:
+                gauss_degenerate_cases[0] += 1
             pfid = fid
             if name == 'ADJUSTED_BINOMIAL':
                 tl_ = float((1.0 - R).sum()) / n
@@ -462,6 +466,7 @@ def run(ctx):
                     checks.append(('tranche_surv_prob_adj_binomial', np.array([1.0 - el1[j]]), dict(cs, tranche=j)))
     ctx.count('tranche_survival_all_methods', n_cases * 4, n_cases * 4,
               sample={'method': 'RECURSION', 'n': 125, 'beta': 0.5, 'attachment_points': [0, 0.03, 0.07, 0.1, 0.15, 0.3, 1.0]})
+    ctx.cov['components']['tranche_survival_all_methods']['gaussian_cases_with_degenerate_nodes'] = gauss_degenerate_cases[0]
 
     # degenerate Gaussian-approximation kernel: sigma -> 0 limit must be min(mu,k2) - min(mu,k1)
     rng = ctx.rng('gauss-degenerate')
@@ -472,10 +477,28 @@ def run(ctx):
         v = float(GC.gauss_approx_tranche_loss(k1, k2, mu, 0.0))
         want = min(mu, k2) - min(mu, k1)
         if abs(v - want) > 1e-12:
-            ctx.violation('gauss_approx_tranche_loss: sigma<1e-6 branch adds (mu-k2) instead of subtracting it',
-                          {'k1': k1, 'k2': k2, 'mu': mu, 'sigma': 0.0, 'returned': v, 'limit': want},
-                          finding='C17/gaussian-degenerate-sigma-sign' if mu > k2 else None, clause='degenerate-limit')
+            ctx.violation('gauss_approx_tranche_loss: the sigma<1e-6 branch is not the limit min(mu,k2)-min(mu,k1)',
+                          {'k1': k1, 'k2': k2, 'mu': mu, 'sigma': 0.0, 'returned': v, 'limit': want}, clause='degenerate-limit')
     ctx.count('gauss_approx_tranche_loss_degenerate', 40, 40)
+
+    # the former witness of C17/gaussian-degenerate-sigma-sign and its neighbourhood: high beta, every capital structure
+    for beta_ in (0.9, 0.95, 0.99):
+        for n_ in (25, 125):
+            for qv in (0.84, 0.5, 0.99):
+                q_, R_, b_ = np.full(n_, qv), np.full(n_, 0.4), np.full(n_, beta_)
+                ks_ = [0.0, 0.03, 0.07, 0.15, 0.3, 1.0]
+                sv = [float(GC.tranch_surv_prob_gaussian(ks_[j], ks_[j + 1], n_, q_, R_, b_, 100)) for j in range(5)]
+                tot_ = sum((ks_[j + 1] - ks_[j]) * (1 - sv[j]) for j in range(5))
+                ref_ = gaussian_partition_reference(np, Nf, norminvcdf, q_, R_, b_, 100)
+                cs_ = {'fn': 'tranch_surv_prob_gaussian', 'num_credits': n_, 'survival_prob': qv, 'recovery': 0.4, 'beta': beta_,
+                       'steps': 100, 'attachment_points': ks_, 'tranche_survival': sv, 'partition_sum': tot_, 'reference': ref_}
+                meas.see('gaussian.highbeta.range', max(max(sv) - 1, -min(sv), 0.0))
+                meas.see('gaussian.highbeta.partition-vs-reference', abs(tot_ - ref_) / ref_)
+                if min(sv) < -1e-6 or max(sv) > 1 + 1e-6:
+                    ctx.violation('GAUSSIAN tranche survival outside [0,1] at high beta', cs_, clause='unit-interval')
+                if abs(tot_ - ref_) > 2e-6 * ref_ + 1e-9:
+                    ctx.violation('GAUSSIAN tranche expected losses do not add up at high beta', cs_, clause='partition-adds-up')
+    ctx.count('gaussian_high_beta_regression', 18, 18)
 
     # portfolio_gcd / pair_gcd
     rng = ctx.rng('gcd')
@@ -488,21 +511,8 @@ def run(ctx):
                           finding='C17/gcd-not-a-gcd', clause='gcd-divides')
     ctx.count('pair_gcd', 30, 30)
 
-    # LHPlus closed forms (anchor file gauss_copula_lhplus.py)
-    try:
-        from financepy.models.gauss_copula_lhplus import LHPlusModel
-        mdl = LHPlusModel(0.02, 0.4, 1.0, 0.5, 0.03, 0.4, 0.0, 0.5)
-        try:
-            v = mdl.tranche_survival_prob(0.03, 0.07)
-            if not (0.0 <= v <= 1.0):
-                ctx.violation('LHPlus tranche survival probability outside [0,1]', {'value': v}, clause='unit-interval')
-        except NameError as e:
-            ctx.violation(f'LHPlusModel.tranche_survival_prob raises NameError ({e})',
-                          {"ctor": [0.02, 0.4, 1.0, 0.5, 0.03, 0.4, 0.0, 0.5], "k1": 0.03, 'k2': 0.07},
-                          finding='C17/lhplus-undefined-name', clause='callable')
-    except ImportError:
-        pass
-    ctx.count('lhplus', 1, 1)
+    # LHPlus closed forms (anchor file gauss_copula_lhplus.py), callable since 89be0d9
+    lhplus(ctx, meas, np, quick, LHP)
 
     # =============================================================== 5. products: CDSTranche / CDSBasket
     products(ctx, meas, np, quick)
@@ -547,7 +557,7 @@ def run(ctx):
         'sums are close to 1 and to p_i (rectangle rule on [-6,6], Hull N, Acklam inverse) is validated numerically only',
         'loss units are integer-valued (sh = sz) in recursion_mass_one_partial / recursion_mean_partial; the complement is '
         'the known finding C17/recursion-unit-truncation',
-        'LHP / LHPlus closed forms (bivariate normal M has loops) and the Gaussian-fit method are validated by oracles '
+        'LHP / LHPlus closed forms (bivariate/trivariate normal M, phi3 have loops) and the Gaussian-fit method are validated by oracles '
         'only; Student-t copula and Monte-Carlo default times are exercised through CDSBasket only (C19)',
         'adjusted binomial: the base binomial summing to one (binomial theorem) is validated, the adjustment step is proved',
     ]
@@ -681,7 +691,8 @@ def gaussian_partition_reference(np, Nf, norminvcdf, q, R, b, steps):
 
 
 def gaussian_degenerate(np, Nf, norminvcdf, q1, q2, R, b, steps, ks):
-    """classifier of C17/gaussian-degenerate-sigma-sign: some quadrature node has sigma < 1e-6 and mu > k2 for some tranche"""
+    """coverage tag (formerly the classifier of the now fixed C17/gaussian-degenerate-sigma-sign): some quadrature node has
+    sigma < 1e-6 and mu > k2 for some tranche, i.e. the repaired branch of gauss_approx_tranche_loss is exercised"""
     n = len(R)
     losses = (1.0 - R) / n
     zs, _, _ = quad_nodes(np, steps)
@@ -694,6 +705,147 @@ def gaussian_degenerate(np, Nf, norminvcdf, q1, q2, R, b, steps, ks):
         if deg.any() and float(mu[deg].max()) > min(ks[1:]):
             return True
     return False
+
+
+def lhplus_reference(np, p, r, h, b, p0, r0, h0, b0, k, grid=[None]):
+    """E[min(L,k)] and P(L>k) for L = (1-r) h X + (1-r0) h0 1{asset 0 defaults}, X = Phi((c - b Z)/sqrt(1-b^2)) the
+    defaulted fraction of the large pool and asset 0 defaulting given Z with probability Phi((c0 - b0 Z)/sqrt(1-b0^2)):
+    a one-dimensional integral over the common factor, computed with SciPy's normal law on a fine grid (independent of
+    the library's N / M / phi3)."""
+    from scipy.stats import norm
+    if grid[0] is None:
+        z = np.linspace(-9.0, 9.0, 36001)
+        grid[0] = (z, norm.pdf(z) * (z[1] - z[0]))
+    z, w = grid[0]
+    x = norm.cdf((norm.ppf(p) - b * z) / math.sqrt(1 - b * b))
+    d0 = norm.cdf((norm.ppf(p0) - b0 * z) / math.sqrt(1 - b0 * b0))
+    pool = (1 - r) * h * x
+    emin = float((w * (d0 * np.minimum(pool + (1 - r0) * h0, k) + (1 - d0) * np.minimum(pool, k))).sum())
+    pgt = float((w * (d0 * (pool + (1 - r0) * h0 > k) + (1 - d0) * (pool > k))).sum())
+    return emin, pgt
+
+
+def lhplus(ctx, meas, np, quick, LHP):
+    """LHPlusModel: E[min(L,k)] closed forms, P(L>k), the numerically integrated tranche survival probability."""
+    from financepy.models.gauss_copula_lhplus import LHPlusModel
+    from financepy.utils.error import FinError
+    rng = ctx.rng('lhplus')
+    DK = 1e-5                      # the step hard-coded in LHPlusModel.tranche_survival_prob
+    n_cases = 60 if quick else 600
+    for t in range(n_cases):
+        p = rng.uniform(0.005, 0.3)
+        r = rng.choice([0.0, 0.4, 0.6])
+        b = rng.choice([0.1, 0.3, 0.5, 0.7, 0.9])
+        p0 = rng.uniform(0.005, 0.3)
+        r0 = rng.choice([0.0, 0.4])
+        h0 = rng.choice([0.0, 0.0, 0.01, 0.05, 0.1])
+        h = 1.0 - h0
+        b0 = rng.choice([0.1, 0.3, 0.5, 0.7, 0.9])
+        args = [p, r, h, b, p0, r0, h0, b0]
+        mdl = LHPlusModel(*args)
+        lo, hi = (1 - r0) * h0, (1 - r) * h            # domain of the closed forms: argb >= 0 and arga <= 1
+        total_el = p * h * (1 - r) + p0 * h0 * (1 - r0)
+        ks = sorted(lo + (hi - lo) * u for u in (rng.uniform(0.002, 0.2), rng.uniform(0.2, 0.6), rng.uniform(0.6, 0.999)))
+        cs = {'LHPlusModel': dict(zip(['p', 'r', 'h', 'beta', 'p0', 'r0', 'h0', 'beta_0'], args)), 'strikes': ks}
+        try:
+            el = [float(mdl.exp_min_lk(k)) for k in ks]
+            el2 = [float(mdl.exp_min_lk2(k)) for k in ks]
+            pg = [float(mdl.prob_loss_gt_k(k)) for k in ks]
+            mdl_later = LHPlusModel(min(0.9, p * 1.5), r, h, b, min(0.9, p0 * 1.5), r0, h0, b0)   # later horizon: higher PDs
+            el_later = [float(mdl_later.exp_min_lk(k)) for k in ks]
+        except Exception as e:  # noqa: BLE001
+            ctx.violation(f'LHPlus closed form raised {type(e).__name__}: {e} inside its domain', cs, clause='callable')
+            continue
+        cs.update(exp_min_lk=el, prob_loss_gt_k=pg)
+        for k, a, a2, g in zip(ks, el, el2, pg):
+            re, rg = lhplus_reference(np, *args, k)
+            tag = 'lhplus.h0>0' if h0 > 0 else 'lhplus.h0=0'
+            meas.see(tag + '.exp_min_lk-vs-integral', abs(a - re))
+            meas.see(tag + '.prob-vs-integral', abs(g - rg))
+            meas.see('lhplus.exp_min_lk-vs-exp_min_lk2', abs(a - a2))
+            # phi3 / M / N are 6-7 digit approximations: measured 1.7e-7 (h0 = 0), 1.6e-5 (h0 > 0); P(L>k) is compared
+            # with a grid integral of an indicator (grid error ~1e-4): measured 9.4e-5
+            if not (abs(a - re) <= 5e-5) or not (abs(a2 - re) <= 5e-5):
+                ctx.violation('LHPlus exp_min_lk differs from E[min(L,k)] computed by direct integration over the factor',
+                              dict(cs, k=k, exp_min_lk=a, exp_min_lk2=a2, reference=re), clause='lhplus-expectation')
+            if not (abs(g - rg) <= 5e-4):
+                ctx.violation('LHPlus prob_loss_gt_k differs from P(L>k) computed by direct integration over the factor',
+                              dict(cs, k=k, prob=g, reference=rg), clause='lhplus-tail-probability')
+            if not (-1e-6 <= g <= 1 + 1e-6):
+                ctx.violation('LHPlus P(L>k) outside [0,1]', dict(cs, k=k, prob=g), clause='unit-interval')
+            if not (-1e-6 <= a <= min(k, total_el) + 5e-5):
+                ctx.violation('LHPlus E[min(L,k)] outside [0, min(k, portfolio EL)]', dict(cs, k=k, portfolio_EL=total_el),
+                              clause='unit-interval')
+        # tranche EL as a fraction of the width in [0,1]; E[min(L,k)] non-decreasing in k; non-decreasing in time
+        for j in range(2):
+            frac = (el[j + 1] - el[j]) / (ks[j + 1] - ks[j])
+            meas.see('lhplus.tranche-EL-range', max(-frac, frac - 1, 0.0))
+            if not (-1e-4 <= frac <= 1 + 1e-4):      # 2 x 5e-5 closed-form error over widths >= ~0.1 (hi - lo)
+                ctx.violation('LHPlus tranche expected loss / width outside [0,1]', dict(cs, tranche=[ks[j], ks[j + 1]], EL=frac),
+                              clause='unit-interval')
+        dec = max(a - c for a, c in zip(el, el_later))
+        meas.see('lhplus.monotone-in-time', max(dec, 0.0))
+        if dec > 5e-5:
+            ctx.violation('LHPlus expected tranche loss decreases when default probabilities increase', dict(cs, later=el_later),
+                          clause='non-decreasing-in-time')
+        # partition: at the top of the pool the expected loss is the portfolio EL up to the extra asset's own loss
+        top = float(mdl.exp_min_lk(hi * (1 - 1e-9)))
+        meas.see('lhplus.partition-top' + ('.h0>0' if h0 > 0 else '.h0=0'), max(top - total_el, total_el - p0 * h0 * (1 - r0) - top, 0.0))
+        if not (total_el - p0 * h0 * (1 - r0) - 5e-5 <= top <= total_el + 5e-5):
+            ctx.violation('LHPlus: E[min(L, top of the pool)] is not within [EL - p0 h0 (1-r0), EL] of the portfolio EL',
+                          dict(cs, top=top, portfolio_EL=total_el), clause='partition-adds-up')
+        if h0 == 0.0:
+            # reduces to the LHP model: same closed form, and the numerically integrated tranche survival agrees with LHP
+            for k, a in zip(ks, el):
+                lhp = float(LHP.exp_min_lk(k, p, r, 1.0, b))
+                meas.see('lhplus.vs-LHP.exp_min_lk', abs(a - lhp))
+                if not (abs(a - lhp) <= 1e-6):     # measured 1e-8 (different routes through N / M / phi3)
+                    ctx.violation('LHPlus with no extra asset differs from the LHP closed form', dict(cs, k=k, lhplus=a, lhp=lhp),
+                                  clause='reduces-to-LHP')
+            if t < (12 if quick else 120):
+                k1, k2 = ks[0], ks[1]
+                try:
+                    sv = float(mdl.tranche_survival_prob(k1, k2))
+                except Exception as e:  # noqa: BLE001
+                    ctx.violation(f'LHPlus tranche_survival_prob raised {type(e).__name__}: {e}', dict(cs, k1=k1, k2=k2), clause='callable')
+                    continue
+                want = 1.0 - (el[1] - el[0]) / (k2 - k1)
+                # right-endpoint sum with step dk overstates each E[min(L,k)] by at most dk (measured 5e-6 = dk/2)
+                tol = 2 * DK / (k2 - k1) + 1e-6      # measured 0.3*dk/width
+                meas.see('lhplus.tranche_survival_prob-vs-closed x width/dk', abs(sv - want) * (k2 - k1) / DK)
+                if not (-tol <= sv <= 1 + tol):
+                    ctx.violation('LHPlus tranche survival probability outside [0,1]', dict(cs, k1=k1, k2=k2, value=sv), clause='unit-interval')
+                if not (abs(sv - want) <= tol):
+                    ctx.violation('LHPlus tranche_survival_prob (numerical integral) differs from its own closed form / LHP',
+                                  dict(cs, k1=k1, k2=k2, value=sv, closed_form=want), clause='reduces-to-LHP')
+    ctx.count('LHPlusModel', n_cases, n_cases, sample={'p': 0.05, 'r': 0.4, 'h': 0.95, 'beta': 0.5, 'p0': 0.03, 'r0': 0.4, 'h0': 0.05, 'beta_0': 0.3})
+    # the two entry conditions under which tranche_survival_prob cannot be used at all
+    mdl = LHPlusModel(0.05, 0.4, 1.0, 0.5, 0.03, 0.4, 0.0, 0.5)
+    try:
+        v = float(mdl.tranche_survival_prob(0.0, 0.03))
+        if not (-1e-3 <= v <= 1 + 1e-3):
+            ctx.violation('LHPlus equity tranche survival outside [0,1]', {'k1': 0.0, 'k2': 0.03, 'value': v}, clause='unit-interval')
+    except ZeroDivisionError as e:
+        ctx.violation(f'LHPlusModel.tranche_survival_prob(0, k2) raises ZeroDivisionError ({e}): exp_min_lk_integral(0, dk) divides by num_steps = 0',
+                      {'ctor': [0.05, 0.4, 1.0, 0.5, 0.03, 0.4, 0.0, 0.5], 'k1': 0.0, 'k2': 0.03},
+                      finding='C17/lhplus-equity-tranche-zero-division', clause='callable')
+    except Exception as e:  # noqa: BLE001
+        ctx.violation(f'LHPlusModel.tranche_survival_prob(0, k2) raised {type(e).__name__}: {e}',
+                      {'ctor': [0.05, 0.4, 1.0, 0.5, 0.03, 0.4, 0.0, 0.5], 'k1': 0.0, 'k2': 0.03}, clause='callable')
+    mdl = LHPlusModel(0.05, 0.4, 0.95, 0.5, 0.03, 0.4, 0.05, 0.3)
+    try:
+        v = float(mdl.tranche_survival_prob(0.05, 0.1))
+        if not (-1e-3 <= v <= 1 + 1e-3):
+            ctx.violation('LHPlus tranche survival outside [0,1]', {'k1': 0.05, 'k2': 0.1, 'value': v}, clause='unit-interval')
+    except FinError as e:
+        ctx.violation(f'LHPlusModel.tranche_survival_prob raises FinError ({e}) whenever the extra asset has weight: the integral '
+                      'starts at dk = 1e-5, below (1-r0)*h0 where prob_loss_gt_k refuses to work',
+                      {'ctor': [0.05, 0.4, 0.95, 0.5, 0.03, 0.4, 0.05, 0.3], 'k1': 0.05, 'k2': 0.1},
+                      finding='C17/lhplus-integral-starts-below-extra-asset-loss', clause='callable')
+    except Exception as e:  # noqa: BLE001
+        ctx.violation(f'LHPlusModel.tranche_survival_prob raised {type(e).__name__}: {e}',
+                      {'ctor': [0.05, 0.4, 0.95, 0.5, 0.03, 0.4, 0.05, 0.3], 'k1': 0.05, 'k2': 0.1}, clause='callable')
+    ctx.count('LHPlusModel_entry_conditions', 2, 2)
 
 
 def products(ctx, meas, np, quick):
